@@ -18,7 +18,7 @@ from fractions import Fraction
 import z3
 
 import symrun_reg
-from .nums import (Sym, SymInt, SymBool, SymComplex, SymElem, ExactInt,
+from .nums import (Sym, SymInt, SymBool, SymComplex, SymElem, ConcElem, ExactInt,
                    Unsupported, PathAbort, And, Or, Not, _bterm, same, RV)
 
 TOL = 1e-7
@@ -603,15 +603,14 @@ class ConcreteCtx:
   def elem(self, name):
     v = self._get(name, None)
     if v is None:
-      # unconstrained element: any fresh value
-      v = "E%d" % (len(_ELEM_PRIMES) - 1 - (hash(name) % 5))
-    return _ELEM_PRIMES[int(v[1:]) % len(_ELEM_PRIMES)]
+      return ConcElem(("free", name))          # unconstrained element: a fresh constant
+    return ConcElem(("c", int(v[1:])))
 
   def elems(self, prefix, n):
     return [self.elem("%s%d" % (prefix, i)) for i in range(n)]
 
   def distinct(self, elems):
-    if len(set(elems)) != len(elems): raise EngineError("model does not keep elements distinct")
+    if len(set(e.v for e in elems)) != len(elems): raise EngineError("model does not keep elements distinct")
 
   def choice(self, name, options):
     return options[int(self._get(name, 0))]
@@ -649,6 +648,8 @@ class ConcreteCtx:
     self.observations.append((label, value))
 
   def apply(self, name, fn, *args):
+    if any(isinstance(a, ConcElem) for a in args):
+      return ConcElem((name,) + tuple(ConcElem.lift(a).v for a in args))
     return fn(*args)
 
   def exclude(self, why=""):
@@ -701,6 +702,7 @@ def _jsonable(x):
 
 def _obs_value(v, model):
   if isinstance(v, (Sym, SymInt, SymComplex)): return v.value(model)
+  if isinstance(v, SymElem): return None
   if isinstance(v, (list, tuple)): return [_obs_value(x, model) for x in v]
   if isinstance(v, SymBool):
     raise EngineError("SymBool observation")
@@ -708,6 +710,7 @@ def _obs_value(v, model):
 
 
 def _obs_equal(a, b):
+  if a is None and isinstance(b, ConcElem): return True       # element observations: routing is proved, not compared
   if isinstance(a, (list, tuple)) and isinstance(b, (list, tuple, )):
     return len(a) == len(b) and all(_obs_equal(x, y) for x, y in zip(a, b))
   if isinstance(b, complex) and isinstance(a, (list, tuple)):
